@@ -9,7 +9,7 @@ SPEED = {"spqlios-fma": 1.0, "spqlios-avx": 1.1, "nayuki-avx": 2.5, "fftw": 2.0,
 
 def B(name, scenario, backend, variant, count, **opts):
     extra = {}
-    for k in ("weight", "max_procs", "timeout", "env", "det_count", "no_determinism"):
+    for k in ("weight", "max_procs", "timeout", "env", "det_count", "no_determinism", "wrapper"):
         if k in opts:
             extra[k] = opts.pop(k)
     d = {"name": name, "scenario": scenario, "backend": backend, "variant": variant, "count": int(count), "opts": opts}
@@ -379,6 +379,15 @@ def c16_batches(tier):
             bs.append(B("low-%s-%s" % (be, var), "low", be, var, (16 if q else 400) * slow, spec="swarm:8", specpool=2, nkeys=1, nops=5, weight=20 if q else 200, max_procs=2,
                         **({"xBmax": 10} if extra else {})))
             bs.append(B("conc-%s-%s" % (be, var), "conc", be, var, (16 if q else 400) * slow, spec="swarm:8", specpool=2, nkeys=1, maxw=6, weight=20 if q else 200, max_procs=2))
+    # valgrind memcheck on the -march=haswell twin of the optim build: sees inside the hand-written assembly (thorough tier)
+    for be in BACKENDS:
+        scs = [("life", dict(maxn=9, nops=6))]
+        if not q:
+            scs += [("gates", dict(spec="swarm:9", specpool=2, nkeys=1, stats=0)), ("low", dict(spec="swarm:6", specpool=1, nkeys=1, nops=3, xBmax=10))]
+        for sc, opts in scs:
+            if True:
+                bs.append(B("valgrind-%s-%s" % (sc, be), sc, be, "hsw", 2 if q else 8, weight=40 if q else 150, max_procs=2 if q else 8, no_determinism=True, timeout=3000,
+                            wrapper=["valgrind", "-q", "--error-exitcode=88", "--leak-check=no", "--num-callers=12"], **opts))
     # plain builds: dirty-memory differential (two fill patterns) of the life cycles incl. the hand-written assembly paths
     for be in BACKENDS:
         bs.append(B("life-dirty-%s-optim" % be, "life", be, "optim", 40 if q else 1500, maxn=9, nops=12, weight=20 if q else 200, det_count=40 if q else 400))
